@@ -292,6 +292,40 @@ def run(ctx):
         if float(np.max(np.abs(rn[:, 1] - wn))) > 1e-9:
             ctx.violation('numpy create_ray_from_two_points (%d pairs, %g separations away from the origin): direction cosines off by %.3g'
                           % (k_, ratio, float(np.max(np.abs(rn[:, 1] - wn)))), rec, {'api': 'numpy', 'fn': 'create_ray_from_two_points', 'what': 'far_from_origin'})
+    # ---------------- all pairs between two planes of ordinary resolution (65 x 65 samples each: 17.8 million rays, beyond 2^24, where float32 can no longer
+    # count): ray k still starts at point k // n and points at point k % n.  Checked on sampled rows (first, last, around 2^24 and random ones) to keep memory low.
+    import gc
+    for (m_, n_) in ((4099, 4225),) if ctx.quick else ((4099, 4225), (4225, 4225), (5003, 4097)):
+        gpts = torch.Generator().manual_seed(ctx.seed + m_)
+        st_ = torch.rand(m_, 3, generator=gpts) * 10.0
+        en_ = torch.rand(n_, 3, generator=gpts) * 10.0 + torch.tensor([0., 0., 50.])
+        ctx.case(('all_pairs_large', m_, n_), True)
+        ctx.count('all_pairs/more than 2^24 rays')
+        rec = {'kind': 'all_pairs_large', 'starts': m_, 'ends': n_}
+        try:
+            big = LR.create_ray_from_all_pairs(st_, en_)
+        except Exception as e:
+            ctx.violation('torch create_ray_from_all_pairs raised %r for %d x %d points' % (e, m_, n_), rec, {'api': 'torch', 'fn': 'create_ray_from_all_pairs', 'what': 'raises', 'large': True})
+            continue
+        N_ = m_ * n_
+        ks = sorted({0, 1, n_ - 1, n_, N_ - 1, N_ - n_, N_ - n_ - 1} | {2 ** 24 + d_ for d_ in (-2, -1, 0, 1, 2, n_, 2 * n_ + 1) if 0 <= 2 ** 24 + d_ < N_} |
+                    {rng.randrange(2 ** 24, N_) for _ in range(400)} | {rng.randrange(N_) for _ in range(100)} | {r_ * n_ + c_ for r_ in range(m_ - 40, m_) for c_ in (0, n_ // 2, n_ - 1)})
+        ks_t = torch.tensor(ks)
+        sub = big.reshape(-1, 2, 3)[ks_t].double()
+        if big.reshape(-1, 2, 3).shape[0] != N_:
+            ctx.violation('torch create_ray_from_all_pairs returns %d rays for %d x %d points' % (big.reshape(-1, 2, 3).shape[0], m_, n_), rec,
+                          {'api': 'torch', 'fn': 'create_ray_from_all_pairs', 'what': 'count', 'large': True})
+        else:
+            s_want = st_[ks_t // n_].double()
+            d_want = en_[ks_t % n_].double() - s_want
+            d_want = d_want / d_want.norm(dim=1, keepdim=True)
+            bad = torch.nonzero(((sub[:, 0] - s_want).abs().max(dim=1)[0] > 1e-4) | ((sub[:, 1] - d_want).abs().max(dim=1)[0] > 1e-4)).reshape(-1)
+            if len(bad):
+                kbad = ks[int(bad[0])]
+                ctx.violation('torch create_ray_from_all_pairs (%d x %d points, %d rays): ray %d does not go from start point %d to end point %d (%d of %d sampled rays wrong)'
+                              % (m_, n_, N_, kbad, kbad // n_, kbad % n_, len(bad), len(ks)), dict(rec, ray=kbad), {'api': 'torch', 'fn': 'create_ray_from_all_pairs', 'what': 'index_law', 'large': True})
+        del big, sub
+        gc.collect()
     from .gensamplers import check_generated_samplers
     check_generated_samplers(ctx)          # the definitions regenerated from the source (Generated/Samplers.lean) vs the real functions
     from .genrays import check_generated_rays
